@@ -15,10 +15,11 @@ import (
 
 type dbHandle struct{ st *Store }
 type txHandle struct {
-	st    *Store
-	done  bool
-	seq   int
-	layer *storeLayer // nil until the first write (SQLite's deferred BEGIN)
+	st      *Store
+	done    bool
+	seq     int
+	layer   *storeLayer // nil until the first write (SQLite's deferred BEGIN)
+	hasRead bool        // has run a SELECT: holds a SHARED lock until it is finished
 }
 type stmtHandle struct {
 	st   *Store
@@ -30,6 +31,8 @@ type rowsHandle struct {
 	pos    int
 	closed bool
 	err    Value
+	text   string // the query (diagnostics)
+	site   string // where it was issued
 }
 type rowHandle struct {
 	rows *rowsHandle
@@ -229,6 +232,9 @@ func (in *Interp) execScript(st *Store, tx *txHandle, text string, params []Valu
 }
 
 func (in *Interp) queryScript(st *Store, tx *txHandle, text string, params []Value) (rs *resultSet, errv Value) {
+	if tx != nil {
+		tx.hasRead = true
+	}
 	stmts, perr := parseSQL(text)
 	if perr != nil {
 		in.fail("unsupported", "sql parse: "+perr.Error()+" in: "+text)
@@ -327,7 +333,11 @@ func registerSQL(ex *Explorer) {
 		if err != nil {
 			return nil, err
 		}
-		return in.newHandle("Rows", &rowsHandle{rs: rs, pos: -1}), nil
+		rh := &rowsHandle{rs: rs, pos: -1, text: text, site: in.repoCaller()}
+		if tx == nil {
+			st.dbRows = append(st.dbRows, rh) // an open cursor on a pool connection holds a SHARED lock
+		}
+		return in.newHandle("Rows", rh), nil
 	}
 	reg(func(in *Interp, fn *ssa.Function, a []Value) Value {
 		return doExec(in, a[0].(*Cell), str(a[1]), a[2].(SliceVal))
@@ -453,6 +463,16 @@ func registerSQL(ex *Explorer) {
 			return e
 		}
 		if tx.layer != nil {
+			// rollback-journal mode (the daemon's default): COMMIT needs the EXCLUSIVE lock, which
+			// SQLite grants only when no other connection holds a SHARED lock. A reader that is merely
+			// in flight delays the commit (busy timeout); one that never finishes - a read transaction
+			// left open, a cursor never closed - makes it fail. go-sqlite3 then rolls the transaction back.
+			if who := st.sharedLockHeldByOthers(tx); who != "" {
+				st.finish(tx)
+				in.monitor["commit-blocked-by-reader"]++
+				in.observed = append(in.observed, Observation{Tag: "commit-blocked-by", Term: who})
+				return in.newError("database is locked")
+			}
 			st.committed = tx.layer
 		}
 		st.finish(tx)
@@ -514,6 +534,7 @@ func registerSQL(ex *Explorer) {
 		if rh.err != nil {
 			return rh.err
 		}
+		rh.rows.closed = true // Row.Scan always closes the underlying cursor
 		if len(rh.rows.rs.rows) == 0 {
 			return in.globalSentinel("database/sql", "ErrNoRows")
 		}
